@@ -70,6 +70,24 @@ def _removes_own_scratch(ck, fi, call) -> bool:
     return any(_same_path(fa, tgt, call, p_, c) for (c, p_) in scratch)
 
 
+def _writes_pointer(ck, fi, call) -> bool:
+    """`call` (a write-mode open / Path.write_text) writes the link path of a key itself -- by the role of the path, not by where it stands."""
+    from .c08 import path_role, open_path
+    fa = FA(ck, fi)
+    tgt = call.func.value if A.call_attr(call) in ("write_text", "write_bytes") and isinstance(call.func, ast.Attribute) else open_path(call)
+    return bool(fa.nodes(call)) and tgt is not None and path_role(fa, tgt, fa.nodes(call)[0]) == "pointer"
+
+
+def _pointer_publications(ck, fa):
+    """Where `fa` makes an object the one its key designates: calls of the data source's pointer writers, and the pointer written
+    (or atomically replaced) on the spot."""
+    from .c08 import pointer_writers, write_opens, _atomic_publications
+    names = pointer_writers(ck) | {"_write_non_versioned_link"}
+    out = [c for c in fa.calls() if fa.nodes(c) and A.call_attr(c) in names and A.dotted(A.call_recv(c)) in ("self", "cls")]
+    out += [c for c in write_opens(ck, fa)["pointer"] if fa.nodes(c)] + [c for c in _atomic_publications(fa) if fa.nodes(c)]
+    return out
+
+
 def _staged_onto_absent_object(ck, fi, wopen) -> bool:
     """The file opened for writing at `wopen` is a scratch file (a name outside the key scheme) and every move of it goes onto the
     version-object path of a key that the path conditions establish to be absent (`exists_versioned(k)` / `<path>.exists()` false)."""
@@ -113,6 +131,9 @@ def check(ck):
     from .cache_model import CacheModel
     ck.rule("C07.R11", "override keys cannot enter the content-addressed namespace", 1)
     ck.run(check_override_namespace, ck, "C07.R11")
+    ck.rule("C07.R12", "a recorded versioned key is never re-resolved through a mutable pointer: codecs look up the latest version "
+                       "of a key only for content-addressed keys, and a partition passes its parent's versioned keys on unchanged", 2)
+    ck.run(check_pinned_keys, ck, "C07.R12")
     ck.rule("C07.R10", "the memory cache serves a memento only the value cached under that memento's own key", 1)
     ck.run(lambda: check_cache_reads_own_key(ck, CacheModel(ck), "C07.R10"))
     R1, R2, R3, R4, R5, R6 = ("C07.R%d" % i for i in range(1, 7))
@@ -256,7 +277,13 @@ def check(ck):
     ck_f = FA(ck, "storage_base.Codec.Strategy.output_key_for_content_key")
     r = ck_f.one(ck_f.returns(), "return")
     cp = ck_f.fi.params[1] if len(ck_f.fi.params) > 1 else "content_key"
-    okc = "attr:%s.key" % cp in ck_f.deps(r.value) and any(s.startswith("c/") for s in A.strings_in(r.value))
+    # the text that is built, whichever way it is spelled ("c/{}".format(h), "{}/{}".format(AREA, h), "c/" + h, f"c/{h}"): the literal
+    # area prefix followed by exactly one value, the hash
+    okc = False
+    for x in ast.walk(ck_f.expand(r.value, ck_f.nodes(r)[0]) if ck_f.nodes(r) else r.value):
+        t = _template(x)
+        if t is not None and t[0] == "c/{}" and len(t[1]) == 1 and A.norm(_unwrap_str(t[1][0])) == "%s.key" % cp:
+            okc = True
     ck.ob(R1, ck_f.key(r), okc, "content keys live under c/<hash>" if okc else "content key path no longer derives from the hash", ck_f.where(r))
 
     # ---- R2
@@ -270,10 +297,31 @@ def check(ck):
     _rest(ck, fa, R3, R4, R5, R6)
 
 
+def _template(e):
+    """A.str_template, also for `"<sep>".join((a, b, ...))` over a display (the parts concatenated with the separator between them)."""
+    if isinstance(e, ast.Call) and isinstance(e.func, ast.Attribute) and e.func.attr == "join" and A.const_str(e.func.value) is not None \
+            and len(e.args) == 1 and not e.keywords and isinstance(e.args[0], (ast.Tuple, ast.List)) and e.args[0].elts \
+            and not any(isinstance(x, ast.Starred) for x in e.args[0].elts):
+        sep = A.const_str(e.func.value)
+        acc = None
+        for x in e.args[0].elts:
+            if acc is not None and sep:
+                acc = ast.BinOp(left=acc, op=ast.Add(), right=ast.Constant(sep))
+            acc = x if acc is None else ast.BinOp(left=acc, op=ast.Add(), right=x)
+        e = ast.fix_missing_locations(ast.copy_location(acc, e)) if acc is not e.args[0].elts[0] else acc
+    return A.str_template(e)
+
+
+def _unwrap_str(e):
+    while isinstance(e, ast.Call) and isinstance(e.func, ast.Name) and e.func.id == "str" and len(e.args) == 1 and not e.keywords:
+        e = e.args[0]
+    return e
+
+
 def _content_key_template(ck):
     """The text the content key builder puts around the hash: 'c/{}'."""
     ck_fa = FA(ck, "storage_base.Codec.Strategy.output_key_for_content_key")
-    tm = [A.str_template(x) for r in ck_fa.returns() if r.value is not None for x in ast.walk(r.value)]
+    tm = [_template(x) for r in ck_fa.returns() if r.value is not None for x in ast.walk(r.value)]
     tm = [t for t in tm if t is not None and t[0].endswith("{}") and len(t[0]) > 2]
     return tm[0][0] if tm else None
 
@@ -289,7 +337,7 @@ def _spells_content_key(fa, leaf, n, tpl) -> bool:
     if not (isinstance(e, ast.Call) and A.call_attr(e) == "DataSourceKey" and len(e.args) + len(e.keywords) == 1):
         return False
     arg = e.args[0] if e.args else e.keywords[0].value
-    t = A.str_template(arg)
+    t = _template(arg)
     return t is not None and t[0] == tpl and len(t[1]) == 1
 
 
@@ -534,7 +582,7 @@ def check_override_namespace(ck, R):
     is caller-chosen text.  The override key builder refuses (or escapes) keys that fall under the prefix the
     content key builder uses, so no object can sit under a content key that its bytes do not hash to."""
     ck_fa = FA(ck, "storage_base.Codec.Strategy.output_key_for_content_key")
-    tm = [A.str_template(x) for r in ck_fa.returns() if r.value is not None for x in ast.walk(r.value)]
+    tm = [_template(x) for r in ck_fa.returns() if r.value is not None for x in ast.walk(r.value)]
     tm = [t for t in tm if t is not None and t[0].endswith("{}") and len(t[0]) > 2]
     ck.need(tm, "output_key_for_content_key: cannot identify the content prefix")
     prefix = tm[0][0][:-2]            # 'c/'
@@ -636,6 +684,99 @@ def check_override_namespace(ck, R):
           "override keys under %r are refused / escaped" % (mstem + "/") if okm else
           "a key override under %r is used verbatim: with data and metadata under one root (the default) the object lands in the metadata tree, "
           "list_functions yields it as a function and fails on it" % (mstem + "/"), ov.where())
+
+
+def _codec_functions(ck):
+    """Every function of the result codecs (classes nested in Codec / DefaultCodec, helpers included), as the front end left them."""
+    out = []
+    for ci in ck.repo.module("storage_base").all_classes():
+        if ci.qual.startswith(("storage_base.Codec", "storage_base.DefaultCodec")):
+            out += list(ci.methods.values())
+    return out
+
+
+def _carried_field(fa, expr, node_id, fields, depth=6):
+    """The field of an EXISTING index entry that `expr` is, unchanged: `<entry>.f`, `getattr(<entry>, 'f')`, `<entry>[i]`, a local
+    bound to one of these, or a name unpacked from an entry by an assignment or in a loop target.  None for anything computed."""
+    if depth <= 0:
+        return None
+    if isinstance(expr, ast.Call) and A.call_attr(expr) == "getattr" and len(expr.args) == 2 and A.const_str(expr.args[1]) in fields:
+        return A.const_str(expr.args[1])
+    ef = _entry_field(fa, expr, node_id, fields, depth)
+    if ef is not None:
+        return ef[1] if ef[1] in fields else None
+    if isinstance(expr, ast.Name):
+        ds = fa.df.reaching(node_id, expr.id)
+        if len(ds) == 1 and ds[0].kind == "assign" and ds[0].value is not None:
+            return _carried_field(fa, ds[0].value, ds[0].node, fields, depth - 1)
+        if len(ds) == 1 and ds[0].kind in ("for", "unpack"):
+            tg = getattr(ds[0].stmt, "target", None)
+            for t in ([tg] if tg is not None else getattr(ds[0].stmt, "targets", [])):
+                for x in ast.walk(t):
+                    if isinstance(x, (ast.Tuple, ast.List)) and len(x.elts) == len(fields) and not any(isinstance(e, ast.Starred) for e in x.elts):
+                        for i, e in enumerate(x.elts):
+                            if isinstance(e, ast.Name) and e.id == expr.id:
+                                return fields[i]
+    return None
+
+
+def check_pinned_keys(ck, R):
+    """A versioned key (key + version) names bytes for good; the pointer of a bare key names whatever was written under that name
+    last.  Only for a content-addressed key do the two agree (same key => same bytes), so that is the only kind of key a codec may
+    resolve through the pointer when it decides which object a result -- or an entry of a partition index -- is recorded as.  An
+    entry a partition inherits from its parent is recorded under the parent's versioned key itself."""
+    from . import partition_model as PM
+    blob_store = ck.repo.try_func(BLOB + ".store")
+    tpl = _content_key_template(ck)
+    seen = 0
+    for fi in _codec_functions(ck):
+        if not any(A.call_attr(c) == "get_versioned_key" for c in A.body_calls(fi.node)):
+            continue
+        fa = FA(ck, fi)
+        # the one place where a key override decides: under an override nothing is looked up (R2 decides what is returned there)
+        ov = fi.params[2] if blob_store is not None and fi.qual == blob_store.qual and len(fi.params) > 2 else None
+        asm = refined(fa, param_truth_atom(ov, False)) if ov else Assume(fa, lambda e: None)
+        for c in fa.calls("get_versioned_key"):
+            seen += 1
+            arg = c.args[0] if c.args else A.kwarg(c, "key")
+            ok = arg is not None
+            bad = None
+            if ov and expr_live(refined(fa, param_truth_atom(ov, True)), c):
+                ok, bad = False, "an override key"
+            for i in (expr_live(asm, c) if ok else []):
+                for (leaf, n) in asm.cases(arg, i):
+                    dd = fa.df.deps(leaf, n)
+                    if not ("call:output_key_for_content_key" in dd or _spells_content_key(fa, leaf, n, tpl)):
+                        ok, bad = False, "`%s`" % A.short(leaf, 50)
+            ck.ob(R, fa.key(c, "latest-version-only-of-content-keys"), ok,
+                  "the latest version is looked up for a content-addressed key" if ok else
+                  "%s resolves %s through the key's mutable pointer and records the answer: the key is not built from the hash of the bytes, so "
+                  "the latest version under it is whatever was written there last (an override key is overwritten in place) -- the value "
+                  "recorded keeps reading bytes other than the ones it was created with" % (fi.qual.split(".", 1)[1], bad or "a key"), fa.where(c))
+    ck.need(seen, "no codec resolves a content key to its stored version (get_versioned_key): cannot place the dedupe path")
+    # what a partition records for each of its values
+    fa = FA(ck, PM.STORE)
+    fields = PM.entry_type_fields(ck) or _namedtuple_fields(ck, "storage_base", ("result_type", "content_key"))
+    ents = [(c, ef) for (c, ef) in PM.entries_in(fa.node, fields) if fa.nodes(c)]
+    asm = Assume(fa, lambda e: None)
+    stored = 0
+    for (c, ef) in ents:
+        okc = True
+        bad = None
+        for i in fa.nodes(c):
+            for (leaf, n) in asm.cases(ef["content_key"], i):
+                if isinstance(leaf, ast.Call) and A.call_attr(leaf) == "store":
+                    stored += 1
+                    continue            # written (or shared by content) in this activation: the key the codec answered
+                if _carried_field(fa, leaf, n, fields) == "content_key":
+                    continue            # an existing entry's versioned key, as it is
+                okc, bad = False, leaf
+        ck.ob(R, fa.key(c, "entry-key-unchanged"), okc,
+              "index entries record the key their value was stored under / the parent's versioned key itself" if okc else
+              "a partition index entry is recorded under `%s`, which is neither the key the codec returned for the value stored now nor the "
+              "versioned key of the parent's entry: the merged partition reads other bytes than its parent did when it was created"
+              % A.short(bad, 60), fa.where(c))
+    ck.need(stored, "PicklePartitionStrategy.store: no index entry records the key returned by the codec's store")
 
 
 def check_who_may_delete(ck, R4):
@@ -835,6 +976,10 @@ def _rest(ck, fa, R3, R4, R5, R6):
                 fi = ck.cg.funcs[q]
                 ok = q in WRITE_OPEN_SITES
                 why = WRITE_OPEN_SITES.get(q, "")
+                if not ok and fi.cls is not None and fi.cls.qual == FSDS and _writes_pointer(ck, fi, n):
+                    # the pointer file is the one mutable name of a key, wherever in the data source it is written (when, and after
+                    # what, is C08.R1 / R2's obligation): no stored object is opened
+                    ok, why = True, "pointer file"
                 if not ok and fi.cls is not None and fi.cls.qual == FSDS:
                     # bytes staged under a scratch name and moved onto a version path that does not exist yet: no stored
                     # object is written in place (that the scratch file cannot leak is C05.R5's obligation)
@@ -845,12 +990,26 @@ def _rest(ck, fa, R3, R4, R5, R6):
                         # like any other: unless the key already designates one, it becomes the object its key designates, so that
                         # a later result with the same bytes is stored AS it (the dedupe test of R2 looks at the key) -- D52
                         f2 = FA(ck, fi)
-                        links = [c for c in f2.calls("_write_non_versioned_link") if f2.nodes(c)]
+                        links = _pointer_publications(ck, f2)
 
                         def _excused(conj):
                             return all((not pol) and any(w in txt for w in ("exists", " is self", "self is ", " is None")) for (txt, pol) in conj)
+                        from .c08 import open_path as _op
+
+                        def _key_params(e, at):
+                            return {d_[6:] for d_ in f2.df.deps(e, at) if d_.startswith("param:") and d_[6:] not in ("self", "cls")}
+                        obj_keys = _key_params(_op(n), f2.nodes(n)[0]) if f2.nodes(n) and _op(n) is not None else set()
                         okl = False
                         for c in links:
+                            # ... of the same key: what names the pointer is taken from what names the object brought in
+                            named = [a for a in list(c.args) + [k.value for k in c.keywords]] if A.call_attr(c) not in ("open", "write_text", "write_bytes", "FileIO") \
+                                else [c.func.value if A.call_attr(c) in ("write_text", "write_bytes") and isinstance(c.func, ast.Attribute) else _op(c)]
+                            ptr_keys = set()
+                            for a in named:
+                                if a is not None:
+                                    ptr_keys |= _key_params(a, f2.nodes(c)[0])
+                            if obj_keys and not (ptr_keys and ptr_keys <= obj_keys):
+                                continue
                             conds = f2.conditions(f2.stmt_of(c))
                             if conds and all(_excused(conj) for conj in conds):
                                 okl = True
